@@ -36,8 +36,10 @@ package ircserver
 // nickname ownership: a live session with a nickname owns it in the index (hence no two live sessions
 // have nicknames that are equal under the IRC case mapping)
 //@ pred wfOwner(i *IRCServer) = forall id robust.Id :: id in i.sessions && !i.sessions[id].deleted && i.sessions[id].Nick != "" ==> NickToLower(i.sessions[id].Nick) in i.nicks && i.nicks[NickToLower(i.sessions[id].Nick)] == i.sessions[id]
-//@ pred wfChannels(i *IRCServer) = i.channels != nil && (forall ch lcChan :: ch in i.channels ==> i.channels[ch] != nil && allocated(i.channels[ch]) && i.channels[ch].nicks != nil && allocated(i.channels[ch].nicks) && ChanToLower(i.channels[ch].name) == ch && (forall n lcNick :: n in i.channels[ch].nicks ==> i.channels[ch].nicks[n] != nil && allocated(i.channels[ch].nicks[n]) && n in i.nicks)) && (forall a lcChan, b lcChan :: a in i.channels && b in i.channels && a != b ==> i.channels[a].nicks != i.channels[b].nicks)
+//@ pred wfChannels(i *IRCServer) = i.channels != nil && (forall ch lcChan :: ch in i.channels ==> i.channels[ch] != nil && allocated(i.channels[ch]) && i.channels[ch].nicks != nil && allocated(i.channels[ch].nicks) && ChanToLower(i.channels[ch].name) == ch && bansOK(i.channels[ch]) && (forall n lcNick :: n in i.channels[ch].nicks ==> i.channels[ch].nicks[n] != nil && allocated(i.channels[ch].nicks[n]) && n in i.nicks)) && (forall a lcChan, b lcChan :: a in i.channels && b in i.channels && a != b ==> i.channels[a].nicks != i.channels[b].nicks)
 //@ pred msgTime(m *robust.Message) = ite(m.UnixNano == 0, time.Unix(0, m.Id.Id), time.Unix(0, m.UnixNano))
+// every ban carries its compiled pattern
+//@ pred bansOK(c *channel) = forall k int :: 0 <= k && k < len(c.bans) ==> c.bans[k].re != nil
 //@ pred wfLocks(i *IRCServer) = i.sessionsMu != nil && i.lastProcessedMu != nil && i.ConfigMu != nil && i.ServerPrefix != nil
 //@ pred wfBase(i *IRCServer) = i != nil && wfLocks(i) && i.svsholds != nil && i.Config.Banned != nil
 // sessions created through the API (Reply == 0) carry the random session secret (>= 8 bytes are used as captcha challenge)
@@ -297,6 +299,9 @@ package ircserver
 //@   ensures reply: replyOK(reply)
 //@   ensures keeps: forall x robust.Id :: old(x in i.sessions) ==> x in i.sessions && i.sessions[x] == old(i.sessions[x])
 //@   modifies *
+//@   loopinv state: wfMid(i) && wfAuth(i) && wfLogin(i) && replyOK(reply)
+//@   loopinv session: s.Id in i.sessions && i.sessions[s.Id] == s && !s.deleted && (old(s.loggedIn) ==> s.loggedIn)
+//@   loopinv keeps: forall x robust.Id :: old(x in i.sessions) ==> x in i.sessions && i.sessions[x] == old(i.sessions[x])
 
 // What ProcessMessage guarantees at the dispatch in addition to the template:
 // the acting session was created through the API.
@@ -328,7 +333,6 @@ package ircserver
 //@     invariant forall j int :: 0 <= j && j < len(nicks) ==> NickToLower(nicks[j]) in i.nicks
 //@   loop range nicks
 //@     invariant forall j int :: 0 <= j && j < len(nicks) ==> NickToLower(nicks[j]) in i.nicks
-//@     invariant wfMid(i) && replyOK(reply)
 
 //@ func IRCServer.cmdList
 //@   loop range filter
@@ -337,12 +341,7 @@ package ircserver
 //@     invariant forall j int :: 0 <= j && j < len(channels) ==> channels[j] in i.channels
 //@   loop range channels
 //@     invariant forall j int :: 0 <= j && j < len(channels) ==> channels[j] in i.channels
-//@     invariant wfMid(i) && replyOK(reply)
 
-//@ func IRCServer.cmdPart
-//@   loop range strings.Split(msg.Params[0], ",")
-//@     invariant wfMid(i) && replyOK(reply) && s.Id in i.sessions && i.sessions[s.Id] == s && !s.deleted
-//@     invariant forall x robust.Id :: old(x in i.sessions) ==> x in i.sessions && i.sessions[x] == old(i.sessions[x])
 
 // ---------------------------------------------------------------------------
 // Package-level facts
@@ -403,11 +402,12 @@ package ircserver
 // NICK: the membership of every channel is renamed from the old to the new
 // lower-case nickname. While the loop runs, channels not yet visited still
 // list the old name (which is no longer owned), visited ones list the new one.
-//@ pred chanShape(i *IRCServer) = i.channels != nil && (forall ch lcChan :: ch in i.channels ==> i.channels[ch] != nil && allocated(i.channels[ch]) && i.channels[ch].nicks != nil && allocated(i.channels[ch].nicks) && ChanToLower(i.channels[ch].name) == ch) && (forall a lcChan, b lcChan :: a in i.channels && b in i.channels && a != b ==> i.channels[a].nicks != i.channels[b].nicks)
+//@ pred chanShape(i *IRCServer) = i.channels != nil && (forall ch lcChan :: ch in i.channels ==> i.channels[ch] != nil && allocated(i.channels[ch]) && i.channels[ch].nicks != nil && allocated(i.channels[ch].nicks) && ChanToLower(i.channels[ch].name) == ch && bansOK(i.channels[ch])) && (forall a lcChan, b lcChan :: a in i.channels && b in i.channels && a != b ==> i.channels[a].nicks != i.channels[b].nicks)
 //@ func IRCServer.cmdNick
 //@   requires api: s.Id.Reply == 0
 //@   loop range i.channels
-//@     invariant wfBase(i) && wfSessions(i) && wfAuth(i) && wfNicks(i) && wfOwner(i) && replyOK(reply) && chanShape(i)
+//@     nodefault
+//@     invariant wfBase(i) && wfSessions(i) && wfAuth(i) && wfLogin(i) && wfNicks(i) && wfOwner(i) && replyOK(reply) && chanShape(i)
 //@     invariant s.Id in i.sessions && i.sessions[s.Id] == s && !s.deleted && s.Nick == nick && oldNick != NickToLower(nick) && oldNick != "" && !(oldNick in i.nicks)
 //@     invariant forall x robust.Id :: old(x in i.sessions) ==> x in i.sessions && i.sessions[x] == old(i.sessions[x])
 //@     invariant members: forall ch lcChan, n lcNick :: ch in i.channels && n in i.channels[ch].nicks ==> i.channels[ch].nicks[n] != nil && allocated(i.channels[ch].nicks[n]) && (n in i.nicks || (n == oldNick && !seen(ch)))
@@ -418,13 +418,56 @@ package ircserver
 //@ func IRCServer.cmdJoin
 //@   requires registered: s.loggedIn && !s.Server
 //@   requires api: s.Id.Reply == 0
-//@   loop range strings.Split(msg.Params[0], ",")
-//@     invariant wfMid(i) && wfAuth(i) && wfLogin(i) && replyOK(reply) && s.Id in i.sessions && i.sessions[s.Id] == s && !s.deleted && s.loggedIn
-//@     invariant forall x robust.Id :: old(x in i.sessions) ==> x in i.sessions && i.sessions[x] == old(i.sessions[x])
 
 //@ func IRCServer.cmdMode
 //@   ensures stillalive: !s.deleted && (old(s.loggedIn) ==> s.loggedIn)
+//@   loop range modes
+//@     invariant forall k int :: 0 <= k && k < len(modes) ==> len(modes[k].Mode) >= 2
+//@     invariant c != nil && ChanToLower(channelname) in i.channels && c == i.channels[ChanToLower(channelname)]
+//@   loop range modes #1
+//@     invariant forall k int :: 0 <= k && k < len(modes) ==> len(modes[k].Mode) >= 2
+//@     invariant session != nil && nick in i.nicks && session == i.nicks[nick]
 //@ func IRCServer.cmdTopic
 //@   ensures stillalive: !s.deleted && (old(s.loggedIn) ==> s.loggedIn)
 //@ func IRCServer.cmdNames
 //@   ensures stillalive: !s.deleted && (old(s.loggedIn) ==> s.loggedIn)
+
+// ---------------------------------------------------------------------------
+// MODE
+
+//@ func ban
+//@   requires c != nil && bansOK(c)
+//@   ensures bansOK(c)
+//@   modifies channel.bans[c]
+//@   loop range c.bans
+//@     invariant forall k int :: 0 <= k && k < len(newBans) ==> newBans[k].re != nil
+//@     invariant bansOK(c)
+//@ func banBoth
+//@   requires c != nil && bansOK(c)
+//@   ensures bansOK(c)
+//@   modifies channel.bans[c]
+
+// "+x"/"-x" for every mode character (a multi-byte rune gives a longer string; Mode[0] and Mode[1] exist)
+//@ func normalizeModes
+//@   requires msg != nil
+//@   ensures shape: forall k int :: 0 <= k && k < len(result) ==> len(result[k].Mode) >= 2
+//@   modifies
+//@   loop range modestr
+//@     invariant modearg >= 2
+//@     invariant forall k int :: 0 <= k && k < len(results) ==> len(results[k].Mode) >= 2
+
+//@ func modeCmds.IRCParams
+//@   requires shape: forall k int :: 0 <= k && k < len(cmds) ==> len(cmds[k].Mode) >= 2
+//@   ensures len(result) >= 1
+//@   modifies
+//@   loop range cmds
+//@     invariant forall k int :: 0 <= k && k < len(add) ==> len(add[k].Mode) >= 2
+//@     invariant forall k int :: 0 <= k && k < len(remove) ==> len(remove[k].Mode) >= 2
+//@   loop range add
+//@     invariant forall k int :: 0 <= k && k < len(add) ==> len(add[k].Mode) >= 2
+//@   loop range remove
+//@     invariant forall k int :: 0 <= k && k < len(remove) ==> len(remove[k].Mode) >= 2
+
+//@ func IRCServer.resolveSessionToRemoteAddrLocked
+//@   requires i != nil && wfSessions(i)
+//@   modifies
